@@ -44,6 +44,7 @@ func post(c *ev.Check, outs []*run.Outcome) {
 	c.Require("shapes.rejected.signed-random", 5)
 	c.Require("shapes.rejected.trunc-field", 5)
 	c.Require("migrations_adopted", 1)
+	c.Require("primary_checks_weak", 1)
 	c.Require("overlap_bans_adopted_mid_round", 10*min)
 	c.Require("overlap_attempts_after_ban", 8*min)
 	c.Require("overlap_banned_holder_answered_late", 3*min)
